@@ -34,7 +34,7 @@ class C03(Harness):
                           'cascade': 3 if tier == 'quick' else 4, 'slot': 3 if tier == 'quick' else 4, 'class': 3 if tier == 'quick' else 4,
                           'oneshot': 3 if tier == 'quick' else 4,
                           'subclass': 3 if tier == 'quick' else 4, 'follow': 3 if tier == 'quick' else 4,
-                          'oneshot_slot': 3 if tier == 'quick' else 4},
+                          'oneshot_slot': 3 if tier == 'quick' else 4, 'equalreg': 3 if tier == 'quick' else 4},
                 'configs': len(self.configs(tier)), 'equality_domain': NVALS}
 
     def configs(self, tier):
@@ -44,6 +44,17 @@ class C03(Harness):
             for modes in (('args', 'args', 'args'), ('kwargs', 'args', 'args')):
                 specs = [W(i, ['a'] if i < 2 else ['a', 'b'], onlychanged=False, precedence=precs[i], mode=modes[i]) for i in range(3)]
                 out.append({'slice': 'ordering', 'specs': specs})
+        # 1b equal-but-distinct registrations (w0 and w2 are equal Watcher tuples, w1 sits between them): unwatch removes the very
+        #    registration it was handed, the surviving ones keep their order
+        for what in (None, 'bounds'):
+            for prec1 in (0, 1):
+                if what is None:
+                    specs = [W(0, ['a'], onlychanged=False, eqcb=True), W(1, ['a'], onlychanged=False, precedence=prec1),
+                             W(2, ['a'], onlychanged=False, eqcb=True)]
+                else:
+                    specs = [W(0, ['n'], what='bounds', onlychanged=False, eqcb=True), W(1, ['n'], what='bounds', onlychanged=False, precedence=prec1),
+                             W(2, ['n'], what='bounds', onlychanged=False, eqcb=True)]
+                out.append({'slice': 'equalreg', 'specs': specs})
         # 2 filtering: changes-only watcher + an unfiltered witness
         out.append({'slice': 'filtering', 'specs': [W(0, ['a'], onlychanged=True), W(1, ['a'], onlychanged=False)]})
         out.append({'slice': 'filtering', 'specs': [W(0, ['a'], onlychanged=True, mode='kwargs')]})
@@ -107,6 +118,14 @@ class C03(Harness):
                 ops.append(['unwatch', i] if mw['active'] else ['watch', i])
                 if not mw['active']:
                     ops.append(['watch_bad', i])
+        elif s == 'equalreg':
+            if cfg['specs'][0].get('what') == 'bounds':
+                ops = [['slot', 'n', 'bounds', B1], ['slot', 'n', 'bounds', B2]]
+            else:
+                ops = [['set', 'a', 1], ['set', 'a', 2], ['trigger', ['a']]]
+            for i in range(3):
+                mw = [w for w in world.model.W if w['id'] == 'w%d' % i][0]
+                ops.append(['unwatch', i] if mw['active'] else ['watch', i])
         elif s == 'oneshot':
             ops = [['set', 'a', 1], ['set', 'a', 2], ['update', [['a', 1], ['b', 1]]], ['trigger', ['a']]]
             for i in range(3):
